@@ -769,6 +769,12 @@ def _mirror_type(ty, known):
     if m:
         inner, decls = _mirror_type(m.group(2), known)
         return '%s<%s>' % (m.group(1), inner), decls
+    m2 = re.fullmatch(r'IndexMap\s*<\s*([^,]+?)\s*,\s*(.*)>', ty)
+    if m2 and 'IndexMap' in known:
+        # keep the map shape (key / value types mirrored) when the template provides an IndexMap shim
+        k_, d1 = _mirror_type(m2.group(1), known)
+        v_, d2 = _mirror_type(m2.group(2), known)
+        return 'IndexMap<%s, %s>' % (k_, v_), d1 + d2
     if ty in known:
         return known[ty], []
     if ty in ('String', 'bool', 'u8', 'u16', 'u32', 'u64', 'usize', 'i32', 'i64'):
